@@ -573,7 +573,7 @@ def rule_hash(chk, reach):
             chk.ob(key, ok, "%s: %s" % (cls, reason or detail) if ok else
                    "hash iteration order can reach the output: %s (%s)%s" % (detail, cls, "" if in_reach else " [not reachable from compile today]"),
                    where(b, node), sample={"fn": fname, "site": what, "class": cls})
-    chk.floor("C07.floor/hash-sites", n_sites, 13, "hash-order exposure sites in the workspace")
+    chk.floor("C07.floor/hash-sites", n_sites, 10, "hash-order exposure sites in the workspace")
     chk.note("hash site classes: %s" % dict(sorted(classes.items())))
     rule_sort_keys(chk)
     rule_models_order(chk)
